@@ -146,7 +146,16 @@ impl<'a> GeneratorState<'a> {
                     .syntax_error("Unexpected expression type", pos));
             }
             ExprType::Absolute(variable, eight_bits, off) => {
-                let v = self.compiler_state.get_variable(variable);
+                // The operand may be a symbol the compiler refers to on its own (ROM_SELECT for
+                // bankswitching calls), which the included headers are expected to declare
+                let v = match self.compiler_state.variables.get(variable) {
+                    Some(v) => v,
+                    None => {
+                        return Err(self
+                            .compiler_state
+                            .syntax_error(&format!("Unknown identifier {}", variable), pos))
+                    }
+                };
                 signed = v.signed;
                 let offset = if v.memory == VariableMemory::Superchip {
                     match mnemonic {
